@@ -8,6 +8,7 @@ inclusion, cycles, missing file, ambiguous name; faults on the include (EACCES/E
 order of the include-directory set (SimSet), order / spelling / duplication / symlink aliases of -I directories.
 """
 import copy
+import json
 import random
 
 from sim import child, gen, progtree
@@ -125,6 +126,9 @@ def check_case(case, ref_result=None):
                 v.append('INC-hex-differs')
         return {'violations': v, 'observed': obs, 'split': rs, 'ref': rr}
     # negative and fault worlds: must be rejected, fail closed
+    if 'ess_count' in case and count_ess(case['tree']) != case['ess_count']:
+        obs['skipped'] = 'essential structure of the negative world was removed'
+        return {'violations': v, 'observed': obs, 'split': rs, 'ref': None}
     if not failed(rs):
         v.append(f'INC-accepted-{kind}')
     else:
@@ -162,8 +166,26 @@ def gen_sched(rnd, ndirs, trivial=False):
             'dups': [rnd.randrange(ndirs)] if rnd.random() < 0.3 else []}
 
 
+def strip_wrappers(f):
+    """remove every preprocessor line (conditional / mute wrappers, leak detectors) so that everything is active"""
+    import re
+    items = []
+    for it in f['items']:
+        if it['t'] == 'line':
+            t = it['s'].strip()
+            if t.startswith('#') or re.match(r'^KL\d+ = ', t) or re.match(r'^\.byte KL\d+', t):
+                continue
+            items.append(it)
+        else:
+            strip_wrappers(it['file'])
+            items.append(it)
+    f['items'] = items
+
+
 def negatives(case, rnd, tg):
     """Derive negative worlds from a positive case. Yields (kind, case)."""
+    case = copy.deepcopy(case)
+    strip_wrappers(case['tree'])
     main = case['tree']
     files = progtree.all_files(main)
     inc_files = files[1:]
@@ -245,13 +267,70 @@ def negatives(case, rnd, tg):
         c['inc_dirs'] = progtree.include_dirs(m) + [other]
         c['kind'] = 'neg-ambiguous-name'
         out.append(c)
+    # double inclusion where the first inclusion was made by a deeper file that has already finished; the file
+    # included twice defines no label, so only the inclusion bookkeeping can reject it
+    for via_sibling in (False, True):
+        c = clone()
+        m = c['tree']
+        d = rnd.choice(['', 'inc', 'lib/sub'])
+        tbl = {'name': 'tbl.asm', 'dir': d, 'idx': 90,
+               'items': [{'t': 'line', 's': '  .byte 1, 2, 3', 'r': '  .byte 1, 2, 3'}]}
+        nest = {'name': 'nest.asm', 'dir': rnd.choice(['', 'inc']), 'idx': 91,
+                'items': [{'t': 'line', 's': '  .byte $11', 'r': '  .byte $11'}, {'t': 'inc', 'file': tbl},
+                          {'t': 'line', 's': '  .byte $12', 'r': '  .byte $12'}]}
+        pos = rnd.randrange(0, len(m['items']) + 1)
+        m['items'].insert(pos, {'t': 'inc', 'file': nest})
+        again = {'t': 'inc', 'file': {'name': 'tbl.asm', 'dir': d, 'idx': 92, 'items': [], 'dup': True}}
+        if via_sibling:
+            sib = {'name': 'sib.asm', 'dir': '', 'idx': 93,
+                   'items': [{'t': 'line', 's': '  .byte $21', 'r': '  .byte $21'}, again]}
+            m['items'].insert(pos + 1 + rnd.randrange(0, len(m['items']) - pos), {'t': 'inc', 'file': sib})
+        else:
+            m['items'].insert(pos + 1 + rnd.randrange(0, len(m['items']) - pos), again)
+        c['inc_dirs'] = sorted(set(progtree.include_dirs(m)))
+        c['kind'] = 'neg-double-inclusion-after-nested' + ('-via-sibling' if via_sibling else '')
+        out.append(c)
     # missing file
     c = clone()
     c['tree']['items'].insert(rnd.randrange(0, len(c['tree']['items']) + 1),
                               {'t': 'line', 's': '#include "nofile.asm"', 'r': ''})
     c['kind'] = 'neg-missing-file'
     out.append(c)
+    # everything a negative world added (relative to the base tree), plus every include item, is essential: the
+    # minimiser may not remove it (otherwise "accepted" would be reported for a program that is simply valid)
+    base_ids = set()
+
+    def ids(f, acc):
+        for it in f['items']:
+            acc.add(json.dumps(it, sort_keys=True) if it['t'] == 'line' else 'inc:' + progtree.relpath(it['file']))
+            if it['t'] == 'inc':
+                ids(it['file'], acc)
+    ids(main, base_ids)
+    for c in out:
+        n = 0
+
+        def tag(f):
+            nonlocal n
+            for it in f['items']:
+                key = json.dumps(it, sort_keys=True) if it['t'] == 'line' else 'inc:' + progtree.relpath(it['file'])
+                if it['t'] == 'inc' or key not in base_ids:
+                    it['ess'] = True
+                    n += 1
+                if it['t'] == 'inc':
+                    tag(it['file'])
+        tag(c['tree'])
+        c['ess_count'] = n
     return out
+
+
+def count_ess(f):
+    n = 0
+    for it in f['items']:
+        if it.get('ess'):
+            n += 1
+        if it['t'] == 'inc':
+            n += count_ess(it['file'])
+    return n
 
 
 def explore(subseed, cfg):
